@@ -138,7 +138,7 @@ func boundedJobs(r *runner.Run, emit func(job) bool) bool {
 // application (there are no snapshots of a booted application).
 func runHistTree(backend, flow string, h hist, deadline time.Time) (res *batchResult, cut bool) {
 	res = &batchResult{via: map[string]int64{}, distinct: map[string]struct{}{}}
-	failed := map[string]bool{}
+	failed := map[string]int{}
 	alphabet := opsFor(flow)
 	var dfs func(ops []string) bool
 	dfs = func(ops []string) bool {
@@ -165,7 +165,7 @@ func runHistTree(backend, flow string, h hist, deadline time.Time) (res *batchRe
 	return res, cut
 }
 
-func merge(into, one *batchResult, failed map[string]bool) {
+func merge(into, one *batchResult, failed map[string]int) {
 	into.infra = append(into.infra, one.infra...)
 	into.evals += one.evals
 	into.accepts += one.accepts
@@ -189,10 +189,14 @@ func merge(into, one *batchResult, failed map[string]bool) {
 	if len(into.samples) < 2 {
 		into.samples = append(into.samples, one.samples...)
 	}
-	for _, f := range one.fails {
-		if !failed[f.Key] { // the shortest history comes first (depth-first, parents before children)
-			failed[f.Key] = true
+	for _, f := range one.fails { // per key the shortest history
+		at, seen := failed[f.Key]
+		switch {
+		case !seen:
+			failed[f.Key] = len(into.fails)
 			into.fails = append(into.fails, f)
+		case len(f.Ops) < len(into.fails[at].Ops):
+			into.fails[at] = f
 		}
 	}
 }
@@ -417,10 +421,10 @@ func (h *histRun) step(n int, op string) (done, ok bool) {
 			return false, false
 		}
 		k := h.newCase("store", "")
-		if n, err := be.EnqueueBatch([]queue.Envelope{x.envelope(k), x.envelope(k)}); err == nil {
-			note("accepted")
-			x.infra("EnqueueBatch stored %d items of a batch that holds the same id twice (history %v)", n, x.ops)
-			return false, false
+		if _, err := be.EnqueueBatch([]queue.Envelope{x.envelope(k), x.envelope(k)}); err == nil {
+			note("accepted") // both items are the same message: whatever is stored under the id must be that message
+			h.accepted([]int{k}, idOf(k))
+			return true, true
 		}
 		note("refused")
 		h.refused([]int{k}, 2, op)
